@@ -407,3 +407,13 @@ def conforms(t, p):
             return all(walk(a, False) for a in n[2])
         return False
     return walk(t, True)
+
+
+def simple_filter_for(rng, p, fname):
+    """A small Bool-rooted filter that uses function `fname` once (coverage prelude, so that no
+    function's presence in a run depends on chance)."""
+    args, ret = FUNCS[fname][0]
+    callt = ("call", fname, tuple(gen_arg(rng, p, fname, i, a, 0) for i, a in enumerate(args)))
+    if ret == "bool":
+        return callt if p.bare_bool_func else ("cmp", "eq", callt, T.lit("bool", "true"))
+    return ("cmp", rng.choice(["eq", "ne", "lt", "ge"]), callt, gen_leaf(rng, p, ret))
